@@ -143,6 +143,17 @@ class HDateTime(datetime.datetime):
     pass
 
 
+class HRaiseStr(str):
+    """A host string that cannot be compared: every rich comparison raises (the relational operators answer null, the library calls
+    fail). Only used as a POISON element of the poisoned histories - never an operand of an oracle."""
+
+    def _refuse(self, other):
+        raise ValueError('c11: this host value cannot be compared')
+
+    __lt__ = __le__ = __gt__ = __ge__ = __eq__ = __ne__ = _refuse
+    __hash__ = str.__hash__
+
+
 class Color(enum.IntEnum):
     ZERO = 0
     RED = 1
@@ -1935,6 +1946,13 @@ def o_host_base(im, a, b):
 #   ['sortvar', i]                arraySort(vi) in place     ['idxin', i, j]  arrayIndexOf / arrayLastIndexOf(vi, vj)
 #   ['isort', mutstep, obsstep]   a sort whose compare function mutates a variable and observes on every call
 #   ['fault', kind, [i...], k]    a library call that fails (see H_FAULTS) - it returns null or aborts the run, the history goes on
+#   ['poison', i, where, p]       a POISON element p (H_POISONS: an element no comparison survives) is put INTO the persisting container vi:
+#                                 where = key (objectSet) | index (arraySet) | 'push' (arrayPush) | 'wrap' (vi itself is nested beyond the
+#                                 recursion limit around its old value: p = 'deep' by a host function, 'deepscript' by a script loop).
+#                                 While a variable is poisoned every consumer on it fails (fault kinds H_PFAULTS: the consumers on the
+#                                 variables themselves, not on temporaries) and its observations are not judged (h_snap -> H_POISONED; the
+#                                 failing step itself is outside the property / known finding F36). The poison is then overwritten IN PLACE
+#                                 (aset / set / pop) and the same container objects are observed again in both operand orders.
 
 H_PRELUDE = '''
 function c11sloppy(a, b):
@@ -1969,10 +1987,23 @@ function c11nestedFault(a, b):
     c11t = arraySort(arrayNew(b, a, b), c11sloppy)
     return systemCompare(a, b)
 endfunction
+
+function c11deepen(x, n):
+    c11i = 0
+    while c11i < n:
+        x = arrayNew(x)
+        c11i = c11i + 1
+    endwhile
+    return x
+endfunction
 '''
 
 H_FAULTS = ['sloppy', 'retstr', 'raise', 'none', 'abort', 'badsig0', 'badsig1', 'badsig3', 'deepsort', 'deepop', 'deepcall', 'deepindex', 'nan',
             'dsrow', 'dssorts', 'dsfield', 'args', 'args2', 'index', 'matchraise', 'slow', 'nestedfault']
+# consumers on the variables THEMSELVES (no temporaries around them except where the consumer needs an array): faults while a variable is poisoned
+H_PFAULTS = ['pcmp', 'pcmp1', 'pops', 'popsr', 'peq', 'pidx', 'pminmax', 'psort', 'psortfn', 'pdsort', 'pdsortv', 'psortvar', 'pidxvar']
+H_POISONS = ['deep', 'dtmax', 'dtmin', 'raisestr']
+H_POISONED = '\x00c11-poisoned'
 H_OKFNS = {'c11rev': -1, 'c11fwd': 1, 'c11nested': 1, 'c11hostobj': 1, 'c11hostrev': -1, 'c11hostkw': 1, 'c11hostmethod': 1}
 H_DEEP = 1500
 
@@ -2027,7 +2058,22 @@ def h_fault_text(kind, vs, k, invar=None):
     rows2 = f'arrayNew({objs}, {objs})'
     if invar is not None:
         arr = rows = rows2 = V(invar)
+    pa, pb = V(vs[0]), V(vs[1] if len(vs) > 1 else vs[0])
+    pobjs = ', '.join(V(i) for i in vs[-1:] + vs[:-1])      # the last one (a bystander that is not poisoned) first: its comparisons succeed before the call fails
     return {
+        'pcmp': f'arrayNew(systemCompare({pa}, {pb}), systemCompare({pb}, {pa}))',
+        'pcmp1': f'systemCompare({pa}, {pb})',
+        'pops': 'arrayNew(' + ', '.join(f'{pa} {op} {pb}' for op in RELOPS) + ')',
+        'popsr': 'arrayNew(' + ', '.join(f'{pb} {op} {pa}' for op in RELOPS) + ')',
+        'peq': f'arrayNew({pa} == {pb}, {pa} != {pb})',
+        'pidx': f'arrayNew(arrayIndexOf(arrayNew({pb}), {pa}), arrayLastIndexOf(arrayNew({pa}), {pb}))',
+        'pminmax': f'arrayNew(mathMin({pa}, {pb}), mathMax({pa}, {pb}))',
+        'psort': f'arraySort(arrayNew({pobjs}))',
+        'psortfn': f'arraySort(arrayNew({pobjs}), c11fwd)',
+        'pdsort': f"dataSort(arrayNew(objectNew('a', {pa}), objectNew('a', {pb})), arrayNew(arrayNew('a')))",
+        'pdsortv': f"dataSort(arrayNew({pobjs}), arrayNew(arrayNew('a'), arrayNew('b', true), arrayNew('c')))",     # the variables themselves are the rows
+        'psortvar': f'arraySort({arr})',
+        'pidxvar': f'arrayNew(arrayIndexOf({arr}, {pa}), arrayLastIndexOf({arr}, {pb}))',
         'sloppy': f'arraySort({arr}, c11sloppy)',
         'retstr': f"arraySort({arr}, c11kthfn({k}, 'str'))",
         'raise': f"arraySort({arr}, c11kthfn({k}, 'raise'))",
@@ -2124,6 +2170,16 @@ class HCompiler:
             return None, f"c11emit(arrayNew('idxin', {tag}, arrayNew(c11snap({a}), c11snap({x})), arrayNew(arrayIndexOf({a}, {x}), arrayLastIndexOf({a}, {x}))))", tag
         if k == 'fault':
             return None, h_fault_text(step[1], step[2], step[3], step[4] if len(step) > 4 else None), None
+        if k == 'poison':
+            _, i, where, p = step
+            if where == 'wrap':
+                return V(i), (f'c11deepen({V(i)}, {H_DEEP})' if p == 'deepscript' else f'c11wrap({V(i)}, {H_DEEP})'), None
+            pv = f"c11poison('{p}')"
+            if where == 'push':
+                return None, f'arrayPush({V(i)}, {pv})', None
+            if isinstance(where, str):
+                return None, f"objectSet({V(i)}, '{where}', {pv})", None
+            return None, f'arraySet({V(i)}, {where}, {pv})', None
         raise ValueError(f'unknown step {step!r}')
 
     def lines(self, step):
@@ -2151,6 +2207,8 @@ def h_is_int(x):
 def h_check_record(rec, step, add, model):
     """One emitted record against the reference comparison of the snapshots. add(field, expected, actual); model(request, got, pick)."""
     kind, snaps, res = rec[0], rec[2], rec[3]
+    if any(isinstance(s, str) and s == H_POISONED for s in snaps):
+        return      # an operand still holds a poison element: outside the property (and known finding F36) - nothing is claimed
     if kind == 'obs':
         c = ref_compare(snaps[0], snaps[1])
         if 'cmp' in res:
@@ -2278,7 +2336,9 @@ class HistoryRunner:
 
         return {
             'c11val': val,
-            'c11snap': lambda args, options: copy.deepcopy(args[0]),
+            'c11snap': lambda args, options: h_snap(args[0]),
+            'c11poison': lambda args, options: h_poison(args[0]),
+            'c11wrap': lambda args, options: h_wrap(args[0], int(args[1])),
             'c11shallow': lambda args, options: list(args[0]) if isinstance(args[0], list) else None,
             'c11emit': emit,
             'c11which': which,
@@ -2387,6 +2447,46 @@ class HistoryRunner:
         return failures, mcases, stats
 
 
+def h_wrap(v, n):
+    for _ in range(n):
+        v = [v]
+    return v
+
+
+def h_poison(p):
+    """a fresh poison element: no comparison in which it takes part returns"""
+    if p == 'deep':
+        return h_wrap([], H_DEEP)                                               # RecursionError (needs a 'deep' partner at the same place)
+    if p == 'dtmax':
+        return datetime.datetime.max.replace(tzinfo=tz(-23 * 60))               # OverflowError in value_normalize_datetime (known finding F36)
+    if p == 'dtmin':
+        return datetime.datetime.min.replace(tzinfo=tz(23 * 60))
+    if p == 'raisestr':
+        return HRaiseStr('a')                                                   # ValueError from the host value's own comparison
+    raise ValueError(p)
+
+
+def h_is_poison(x):
+    return type(x) is HRaiseStr or (isinstance(x, datetime.datetime) and x.tzinfo is not None and (x.year <= 1 or x.year >= 9999))  # pylint: disable=unidiomatic-typecheck
+
+
+def h_snap(v, limit=100):
+    """a deep copy of the current value of a variable for the oracles (sharing preserved) - or H_POISONED when a poison element is inside
+    (nested deeper than `limit`, an aware datetime at the edge of the range, a host value that refuses comparison)"""
+    stack = [(v, 0)]
+    seen = set()
+    while stack:
+        x, d = stack.pop()
+        if d > limit or h_is_poison(x):
+            return H_POISONED
+        if isinstance(x, (list, dict)):
+            if id(x) in seen:
+                continue
+            seen.add(id(x))
+            stack.extend((y, d + 1) for y in (x.values() if isinstance(x, dict) else x))
+    return copy.deepcopy(v)
+
+
 def _host_cmp(im, sgn, args, options):  # pylint: disable=unused-argument
     return sgn * im.value.value_compare(args[0], args[1])
 
@@ -2450,8 +2550,9 @@ def h_value(rng, kind, hostish, depth=1):
 class HGen:
     """Random histories from motifs; the motif 'reobs' (observe, mutate, observe the same variables again) is the core."""
 
-    def __init__(self, rng, hostish=False, zones=()):
+    def __init__(self, rng, hostish=False, zones=(), poison=0.0):
         self.rng = rng
+        self.poison = poison        # probability that a motif is the poisoned-containers motif (0: the generator draws exactly as before)
         self.hostish = hostish
         self.zones = list(zones)
         self.consts = []
@@ -2564,8 +2665,107 @@ class HGen:
             step.append(rng.choice(arrs))       # the failing call works on a persisting array variable (a later retry sees the same array)
         return step
 
+    def poisoned(self):
+        """Two (or four) persisting containers that start as equal copies get a poison element at the same place; consumers run on the
+        variables themselves and fail; the poison is overwritten in place with ordinary, mostly different, values; every consumer is
+        observed again on the SAME container objects in both operand orders."""
+        rng = self.rng
+        shape = rng.choice(['arr', 'arr', 'obj', 'obj', 'wrap'] + (['nested', 'nested', 'rows'] if self.nvars >= 4 else []) + ['holder'])
+        i, j = (0, 1) if shape in ('nested', 'rows', 'holder') else sorted(rng.sample(range(self.nvars), 2))
+        if rng.random() < 0.5 and shape not in ('nested', 'rows', 'holder'):
+            i, j = j, i
+        fam = rng.choice([[1, 2, 3, 1.0], ['a', 'b', 'c', ''], [1, 'a', None, True], [0, 1, 2, 5]])
+        steps = []
+        if shape in ('obj', 'rows') or (shape in ('nested', 'holder') and rng.random() < 0.5):
+            base = {k: rng.choice(fam) for k in rng.sample(H_KEYS, rng.choice([1, 2, 3]))}
+            where = rng.choice(H_KEYS)
+            kind = 'obj'
+        else:
+            base = [rng.choice(fam) for _ in range(rng.choice([1, 1, 2, 3]))]
+            where = rng.choice(list(range(len(base))) + ['push'])
+            kind = 'strs'
+        if shape == 'wrap':
+            where = 'wrap'
+            kind = 'arr'
+        c = self.const(base)
+        for v in (i, j):
+            steps.append(['new', v, c, rng.choice(['val', 'val', 'lit', 'json'])])
+            self.kinds[v] = kind
+        # the poison (both sides, or one side and a partner of the same type on the other)
+        p = 'deep' if shape == 'wrap' else rng.choice(H_POISONS)
+        partner = {'dtmax': datetime.datetime(2024, 2, 29, 12), 'dtmin': datetime.date(2020, 1, 1), 'raisestr': 'b'}.get(p)
+
+        def put(v, value_const):
+            if where == 'push':
+                return ['push', v, value_const]
+            return ['set' if isinstance(where, str) else 'aset', v, where, value_const]
+        first, second = (i, j) if rng.random() < 0.5 else (j, i)
+        steps.append(['poison', first, where, p])
+        steps.append(['poison', second, where, p] if partner is None or rng.random() < 0.5 else put(second, self.const(partner)))
+        # holders: the containers are met further down in the comparison of other persisting containers
+        outer = [i, j]
+        invar = None
+        if shape in ('nested', 'rows'):
+            hk = rng.choice(H_KEYS)
+            hc = self.const({} if rng.random() < 0.5 else {hk: 0, 'id': 7})
+            for v, inner in ((2, i), (3, j)):
+                steps += [['new', v, hc, rng.choice(['val', 'lit'])], ['setv', v, hk, inner]]
+                self.kinds[v] = 'obj'
+            outer = [2, 3]
+        elif shape == 'holder':
+            steps += [['new', 2, self.const([]), 'val'], ['pushv', 2, j], ['pushv', 2, i]]
+            if rng.random() < 0.5:
+                steps.append(['pushv', 2, j])
+            self.kinds[2] = 'arr'
+            invar = 2
+        # the failing consumers
+        for _ in range(rng.choice([1, 1, 2, 3])):
+            fk = rng.choice(H_PFAULTS)
+            vs = list(outer) if rng.random() < 0.7 else [i, j]
+            if rng.random() < 0.5:
+                vs.reverse()
+            steps.append(['fault', fk, vs, 1] + ([invar] if invar is not None and fk in ('psortvar', 'pidxvar', 'psort') else []))
+        # the poison is overwritten in place
+        x, y = rng.sample(fam, 2) if rng.random() < 0.85 else [fam[0], fam[0]]
+        for v, val in ((i, x), (j, y)):
+            if where == 'wrap':
+                steps.append(['aset', v, 0, self.const(val)])
+            elif where == 'push':
+                steps.append(['pop', v])
+                if rng.random() < 0.7:
+                    steps.append(['push', v, self.const(val)])
+                elif kind == 'strs':
+                    steps.append(['aset', v, 0, self.const(val)])
+            else:
+                steps.append(put(v, self.const(val)))
+        # every consumer again on the same objects, both operand orders
+        pairs = [[i, j], [j, i]] + ([[outer[0], outer[1]], [outer[1], outer[0]]] if outer != [i, j] else [])
+        rng.shuffle(pairs)
+        for pr in pairs:
+            steps.append(['obs', pr, 31 if rng.random() < 0.7 else self.mask(0.5)])
+        if shape == 'rows':
+            steps += [['dsort', [2, 3], [[hk]]], ['dsort', [3, 2], [[hk, True], ['id']]]]
+        if kind == 'obj' and rng.random() < 0.5:
+            steps += [['dsort', [i, j], [[where]]], ['dsort', [j, i], [[where, True]]]]
+        if invar is not None:
+            steps += [['idxin', invar, i], ['idxin', invar, j], ['sortvar', invar] + ([rng.choice(sorted(H_OKFNS))] if rng.random() < 0.3 else []),
+                      ['idxin', invar, i]]
+        if rng.random() < 0.5:
+            # a second change of one side: the order of the pair flips / a tie appears
+            v = rng.choice([i, j])
+            if where == 'wrap' or (kind == 'strs' and where != 'push'):
+                steps.append(['aset', v, 0 if where == 'wrap' else where, self.const(rng.choice(fam))])
+            elif kind == 'obj':
+                steps.append(['set', v, where, self.const(rng.choice(fam))])
+            else:
+                steps.append(['push', v, self.const(rng.choice(fam))])
+            steps += [['obs', [i, j], 31], ['obs', [j, i], 31]]
+        return steps
+
     def motif(self, first):
         rng = self.rng
+        if self.poison and rng.random() < self.poison:
+            return self.poisoned()
         r = rng.random()
         if r < (0.55 if first else 0.2):
             f = self.fault()
@@ -2710,6 +2910,82 @@ def directed_histories():
     return out
 
 
+def directed_poison_histories():
+    """Every poison x {array element, pushed element, object member, object inside object, array inside object, both inside a persisting
+    array, the variable itself nested beyond the limit (host-built / built by a script loop)} x every failing consumer (H_PFAULTS) x
+    {script, expr} x {same run, next run on fresh options}: equal copies x, y; poison at the same place; the consumer fails on the variables
+    themselves; the poison is overwritten in place by 1 / 2; all consumers in both operand orders; x is changed again so that the order flips;
+    all consumers again."""
+    out = []
+    vals = [1, 2, 3]
+    arr, obj = [5, 0, 'a'], {'a': 5, 'b': 0, 'c': 'a'}
+    consts = [spec(v) for v in vals] + [spec(arr), spec(obj), spec({}), spec([]), spec(datetime.datetime(2024, 2, 29, 12)), spec('b'), spec({'id': 1, 'b': 0}),
+                                        spec(datetime.datetime(2024, 2, 29, 11, tzinfo=UTC)), spec(datetime.datetime(2024, 2, 29, 13, 30, tzinfo=tz(150))), spec('a')]
+    C_ARR, C_OBJ, C_EARR, C_DT, C_STR, C_ROW, C_AW1, C_AW2, C_STRA = 3, 4, 6, 7, 8, 9, 10, 11, 12
+    shapes = ['elem', 'push', 'member', 'objobj', 'arrobj', 'holder', 'wrap', 'wrapscript']
+    n = 0
+    for shape in shapes:
+        for p in (['deep'] if shape == 'wrap' else ['deepscript'] if shape == 'wrapscript' else H_POISONS):
+            for fk in H_PFAULTS:
+                if fk in ('psortvar', 'pidxvar') and shape != 'holder':
+                    continue
+                n += 1
+                variant = n % 4
+                mode = 'script' if variant & 1 == 0 or shape == 'wrapscript' else 'expr'
+                split = bool(variant & 2)
+                isobj = shape in ('member', 'objobj')
+                base = C_OBJ if isobj else C_ARR
+                where = {'elem': 1, 'push': 'push', 'member': 'b', 'objobj': 'b', 'arrobj': 1, 'holder': 1}.get(shape, 'wrap')
+                setup = [['new', 0, base, 'val'], ['new', 1, base, 'lit' if n % 3 else 'val']]
+                partner = {'dtmax': C_DT, 'dtmin': C_DT, 'raisestr': C_STR}.get(p)
+
+                def put(v, c, where=where, isobj=isobj):
+                    return ['push', v, c] if where == 'push' else ['set' if isobj else 'aset', v, where if where != 'wrap' else 0, c]
+                setup.append(['poison', n % 2, where, p])
+                setup.append(['poison', 1 - n % 2, where, p] if partner is None or n % 5 < 2 else put(1 - n % 2, partner))
+                outer, invar = [0, 1], None
+                if shape in ('objobj', 'arrobj'):
+                    setup += [['new', 2, C_ROW, 'val'], ['setv', 2, 'a', 0], ['new', 3, C_ROW, 'lit'], ['setv', 3, 'a', 1]]
+                    outer = [2, 3]
+                elif shape == 'holder':
+                    setup += [['new', 2, C_EARR, 'val'], ['pushv', 2, 1], ['pushv', 2, 0], ['pushv', 2, 1]]
+                    invar = 2
+                # a bystander: a container that is never poisoned takes part in the failing call (its comparisons succeed before the call fails)
+                if shape in ('objobj', 'arrobj'):
+                    setup += [['new', 4, C_ROW, 'val'], ['set', 4, 'a', base]]
+                    change4 = [['set', 4, 'id', 2]]
+                else:
+                    setup.append(['new', 4, base, 'val'])
+                    change4 = [['push', 4, 2]] if where == 'push' else [put(4, 2)]
+                vs = (list(outer) if n % 7 else list(reversed(outer))) + [4]
+                fault = [['fault', fk, vs, 1] + ([invar] if invar is not None and fk in ('psortvar', 'pidxvar') else [])]
+                heal = ([['pop', 0], ['pop', 1]] if where == 'push' else []) + [put(0, 0), put(1, 1)] + change4
+                pairs = [[0, 1], [1, 0]] + ([[outer[0], outer[1]], [outer[1], outer[0]]] if outer != [0, 1] else []) + [[outer[0], 4], [4, outer[1]]]
+                if n % 2:
+                    pairs.reverse()
+                look = [['obs', pr, 31] for pr in pairs]
+                # ... and the comparison of unrelated values of the poison's type is what it was (equal instants in two zones, a naive one, strings)
+                look += [['obs', [['c', C_AW1], ['c', C_AW2]], 15], ['obs', [['c', C_AW2], ['c', C_DT]], 15], ['obs', [['c', C_STRA], ['c', C_STR]], 15]]
+                if shape in ('objobj', 'arrobj'):
+                    look += [['dsort', [2, 3, 4], [['a']]], ['dsort', [4, 3, 2], [['a', True], ['id']]]]
+                if shape == 'member':
+                    look += [['dsort', [0, 1, 4], [['a'], ['b']]], ['dsort', [4, 1, 0], [['b', True], ['c']]]]
+                # the very calls that failed, again, before anything else (same arguments in the same order: the bystander first)
+                again = [['dsort', vs[-1:] + vs[:-1], [['a'], ['b', True], ['c']]]] if isobj or shape == 'arrobj' else []
+                look = again + [['obs', vs[-1:] + vs[:-1], 31]] + look
+                if invar is not None:
+                    look += [['idxin', 2, 0], ['idxin', 2, 1], ['sortvar', 2], ['idxin', 2, 0]]
+                flip = [['pop', 0], put(0, 2)] if where == 'push' else [put(0, 2)]
+                rest = heal + look + flip + look
+                run = {'mode': mode, 'options': 'reuse', 'maxs': 3 * MAXS if shape == 'wrapscript' else MAXS, 'builtins': True, 'tz': None}
+                if split:
+                    runs = [dict(run, steps=setup + fault), dict(run, steps=rest, options='fresh' if n % 8 >= 4 else 'reuse')]
+                else:
+                    runs = [dict(run, steps=setup + fault + rest)]
+                out.append({'consts': consts, 'runs': runs})
+    return out
+
+
 def history_fails(hist):
     """Run one history on the working tree; True if an observation contradicts the reference comparison."""
     failures, _m, _s = HistoryRunner(Impl()).run(hist)
@@ -2836,7 +3112,17 @@ def history_stream(ctx, im, budget=None, stop_at_first=False, rng_name='history'
                                'spread over 1-3 runs (execute_script of a whole text, or statement by statement through evaluate_expression with and without '
                                'builtins) on re-used or fresh options, with an occasional TZ switch. Oracle: every observation equals the reference '
                                'comparison of the snapshots (current values only); model: every observation is also sent to the Lean model (the model '
-                               'has no history - that is the point). The failing calls themselves are host-only. non-trivial = the history has a '
+                               'has no history - that is the point). The failing calls themselves are host-only. POISONED CONTAINERS (implementation-side '
+                               'oracle: the Lean model has no process state and cannot express a comparison that does not return): two persisting containers '
+                               '(array / object / object inside object / array inside object / both inside a persisting array / the variable itself) that '
+                               'start as equal copies get a poison element at the same place - a host timezone-aware datetime within a day of datetime.min / '
+                               'datetime.max (the failing comparison itself is known finding F36 and is not judged), an array nested beyond the recursion '
+                               'limit (host-built or built by a script loop), a host string whose comparison raises; then a consumer (systemCompare, the six '
+                               'operators in either order, arrayIndexOf / LastIndexOf, mathMin / mathMax, arraySort with / without compare function, dataSort, '
+                               'arraySort / arrayIndexOf on the persisting array that holds them) FAILS on the variables themselves; the poison is overwritten '
+                               'IN PLACE (arraySet / arrayPop + arrayPush / objectSet) so that the containers differ; every consumer is observed again on '
+                               'the SAME objects in BOTH operand orders (antisymmetry, agreement with the reference comparison, == / != consistency, sort '
+                               'ordered), the order is flipped by another in-place change and observed again. non-trivial = the history has a '
                                'fault before an observation')
     runner = HistoryRunner(im)
     rng = ctx.rng(rng_name)
@@ -2846,9 +3132,18 @@ def history_stream(ctx, im, budget=None, stop_at_first=False, rng_name='history'
         if c.get('kind') == 'history':
             hists.append(('corpus', c['history']))
     hists.extend(('directed', h) for h in directed_histories())
+    dpois = directed_poison_histories()
+    if budget is not None:
+        prng0 = ctx.rng(rng_name + '-poison-pick')
+        dpois = prng0.sample(dpois, min(len(dpois), 120))
+    hists.extend(('directed-poison', h) for h in dpois)
     nrand = budget if budget is not None else ctx.scale(1200, 30000)
     for k in range(nrand):
         hists.append(('random', HGen(rng, hostish=(k % 4 == 3), zones=zones).history()))
+    prng = ctx.rng(rng_name + '-poison')
+    npois = budget // 4 if budget is not None else ctx.scale(300, 6000)
+    for k in range(npois):
+        hists.append(('random-poison', HGen(prng, hostish=(k % 4 == 3), zones=zones, poison=0.35).history()))
     mcases = []
     mcap = ctx.scale(25000, 150000)     # observations sent to the model (the reference oracle runs on all of them)
     failed = []
@@ -2856,11 +3151,14 @@ def history_stream(ctx, im, budget=None, stop_at_first=False, rng_name='history'
     totals = {'records': 0, 'aborted': 0, 'steps': 0}
     for origin, hist in hists:
         failures, mc, stats = runner.run(hist)
-        for k in totals:
+        for k in stats:
             totals[k] += stats[k]
         kinds = [s[1] for run in hist['runs'] for s in run['steps'] if s[0] == 'fault']
+        pois = [f'poison:{s[3]}@{s[2] if s[2] in ("push", "wrap") else ("member" if isinstance(s[2], str) else "element")}'
+                for run in hist['runs'] for s in run['steps'] if s[0] == 'poison']
+        totals['poisoned'] = totals.get('poisoned', 0) + int(bool(pois))
         st.case(hist, nontrivial=bool(kinds) and stats['records'] > 0,
-                tags=[origin, f'runs{len(hist["runs"])}'] + [f'fault:{k}' for k in kinds] + [f'mode:{run["mode"]}/{run["options"]}' for run in hist['runs']])
+                tags=[origin, f'runs{len(hist["runs"])}'] + [f'fault:{k}' for k in kinds] + pois + [f'mode:{run["mode"]}/{run["options"]}' for run in hist['runs']])
         st.evaluations += stats['records']
         if failures:
             failed.append((hist, failures, list(recent)))
@@ -2871,7 +3169,9 @@ def history_stream(ctx, im, budget=None, stop_at_first=False, rng_name='history'
         recent = (recent + [hist])[-3:]
     st.hist['observations'] = totals['records']
     st.hist['aborted-runs-or-steps'] = totals['aborted']
-    ctx.notes.append(f'history: {len(hists)} histories ({sum(1 for o, _ in hists if o == "directed")} directed, {nrand} random), {totals["steps"]} steps, '
+    st.hist['histories-with-poisoned-containers'] = totals.get('poisoned', 0)
+    ctx.notes.append(f'history: {len(hists)} histories ({sum(1 for o, _ in hists if o == "directed")} directed, {nrand} random, '
+                     f'{len(dpois)} directed + {npois} random with poisoned containers), {totals["steps"]} steps, '
                      f'{totals["records"]} observations, {totals["aborted"]} aborted runs/steps, {len(mcases)} observations compared with the model')
     # the model on the observations of the clean histories
     if mcases and ctx.driver is not None:
